@@ -141,7 +141,7 @@ def io_intrinsics(files, opened):
         "builtins.next": lambda ev, a, k: a[0].nxt(),
         "lines.readline": lambda ev, a, k: a[0].nxt() if a[0].pos < len(a[0].lines) else "",
         "lines.read": read_rest,
-        "builtins.map": lambda ev, a, k: Tup([ev.call(a[0], [x], {}) for x in ev.iterate(a[1], None, None)], "list"),
+        "builtins.map": lambda ev, a, k: __import__("cijsa.sym", fromlist=["lib_map"]).lib_map(ev, a, k, None, None),
     }
 
 
